@@ -45,7 +45,7 @@ def worker(spec):
     import types
     import warnings
     from vlib.worker import Result
-    from vlib import ctxwork
+    from vlib import ctxwork, ctxmon
     import stackscope
     from stackscope import Context, Stack
 
@@ -432,6 +432,14 @@ def worker(spec):
             warnings.simplefilter("always")
             v = co.send(None)
             st = stackscope.extract(co)
+            sig_body = ctxmon.value_signature(st)
+            st_again = stackscope.extract(co)
+        # results are values: a second extraction of the same target neither changes the first result nor differs
+        res.count("earlier_results_rechecked")
+        if ctxmon.value_signature(st) != sig_body:
+            problems.append(((), "the first result changed when the target was extracted again"))
+        elif ctxmon.value_signature(st_again) != sig_body and not holder_mut:
+            problems.append(((), "two extractions of an unchanged target differ"))
         exp = holder["exp"]
         if st.error or [x for x in w if "Inspection" in type(x.message).__name__]:
             problems.append(((), "error/warning", repr(st.error), [str(x.message)[:80] for x in w]))
